@@ -157,6 +157,10 @@ func (c02) Run(x *Exec, scn any) {
 		name := fmt.Sprintf("r%d", i)
 		spec.Apps = append(spec.Apps, AppSpec{Name: name, Type: "Rec"})
 		lg := LogSpec{Name: fmt.Sprintf("lg%d", i), Type: "Logger", Refs: []RefSpec{{Ref: name}}}
+		if (s.Knobs.MapSeed>>uint(i))%5 == 3 {
+			// an application-defined logger type: no name attribute, GetName() is not its configuration key
+			lg = LogSpec{Name: fmt.Sprintf("lg%d", i), Type: "RecLogger", RecName: name}
+		}
 		if len(list) > 0 {
 			lg.Tags = []string{strings.Join(list, s.Sep)}
 		}
